@@ -289,12 +289,18 @@ package analysis
 // (the table is NOT monotone: for an alias the node is stored under the unaliased type and may replace an
 // earlier node of that type; only "no nil node" is carried through the recursion)
 
+//@ pred nodeIsDate(n Type) bool = ite(is(n, *Named), as(as(n, *Named).Underlying, *Time).IsDate, as(n, *Time).IsDate)
+
 //@ func NewTime
 //@   props C12 C08
 //@   pure result2
 //@   requires typ != nil
 //@   -- a time is a named type whose definition is spelled like time.Time
 //@   ensures result2 <==> typ.Underlying().String() == "struct{wall uint64; ext int64; loc *time.Location}" && is(typ, *types.Named)
+//@   -- a date is a time whose type name contains "date" (any case); the node is the predefined time or date node,
+//@   -- wrapped in a Named node for user-defined types
+//@   ensures result2 ==> (nodeIsDate(result1) <==> strings.Contains(strings.ToLower(as(typ, *types.Named).Obj().Name()), "date"))
+//@   ensures result2 && is(result1, *Named) ==> is(as(result1, *Named).Underlying, *Time)
 //@   ensures result2 ==> result1 != nil && (is(result1, *Time) || is(result1, *Named))
 //@   ensures result2 && is(result1, *Named) ==> as(result1, *Named).name == typ && as(result1, *Named).Underlying != nil
 
@@ -474,3 +480,19 @@ package analysis
 //@ func StructField.IsSQLGuard
 //@   props C05 C08
 //@   ensures result1 == st.Tag.Get("gomacro-sql-guard") && (result2 <==> st.Tag.Get("gomacro-sql-guard") != "")
+
+// ---------------------------------------------------------------- frames used by C08 / C16
+// lookups: nothing is written
+
+//@ func (*Analysis).GetByName
+//@   props C08 C16
+//@   nosafety
+//@   requires an != nil
+//@   ensures an.Pkg.Types.Scope().Lookup(name) == nil ==> result == nil
+//@   ensures an.Pkg.Types.Scope().Lookup(name) != nil ==> result == an.Types[an.Pkg.Types.Scope().Lookup(name).Type()]
+
+//@ func (*Enum).Get
+//@   props C08 C16
+//@   nosafety
+//@   requires e != nil
+//@   ensures exists i int :: 0 <= i && i < len(e.Members) && result == e.Members[i] && e.Members[i].Const.Name() == name
